@@ -23,9 +23,9 @@ def run(ctx):
     # the largest frames the 16-bit length field allows; mutations confined to the first / last bytes
     p, n = swcorpus.gen(ctx, "BIG", "{7}")
     for r in vlib.read_ndjson(p):
-        if q and r["kind"] not in ("flowstats", "flowstats-instr", "hello", "flowmod"):
+        if q and r["kind"] not in ("flowstats", "overlong", "hello", "flowmod"):
             continue
-        base.append(dict(id=r["id"], entry="Parse", kind=r["kind"], frame=r["frame"], win=[24, 64] if q else r["win"]))
+        base.append(dict(id=r["id"], entry="Parse", kind=r["kind"], frame=r["frame"], win=[24, 64] if q else r["win"], d2=(r["kind"] == "overlong")))
     sp, nb, nm = totality.mutate(ctx, base, "of", depth2=not q, maxlen=480 if q else 2000)
     tr, recs = totality.run(ctx, sp, "of")
     ctx.extra.update(base_frames=nb, mutants=nm, distinct_nontrivial=nm)
